@@ -138,3 +138,40 @@ SCENARIOS = [
                       "shape annotations are sound for every accepted input"], max_paths=60000, budget_s=900)
     for k in (1, 2, 3) for xr in (None, 0, 1, 2) for yr in (None, 0, 1, 2) if not (xr is None and yr is not None and yr != 0)
 ]
+
+
+# ------------------------------------------------------------------ _ir_utils shape helpers -------
+
+def s_same_shape(ctx):
+    """_ir_utils.same_shape / same_dim: True only if the runtime shapes (dims) are equal under EVERY binding — in particular
+    two unknown dims are never 'the same' (ranks <= 2; dims static / named N, M / unknown)."""
+    import onnx_ir as ir
+    from onnxscript.rewriter import _ir_utils
+    from .irmodel import World
+    from contracts.c03_folding import choose_shape
+    I = Interp(ctx)
+    W = World(I)
+    s1, r1 = choose_shape(ctx, W, "a")
+    s2, r2 = choose_shape(ctx, W, "b")
+    sh1 = W.shape(s1) if s1 is not None else None
+    sh2 = W.shape(s2) if s2 is not None else None
+    r = I.call(_ir_utils.same_shape, [sh1, sh2])
+    if I.truth(r):
+        ctx.cover("same_shape.true")
+        ok = s1 is not None and s2 is not None and len(r1) == len(r2)
+        ctx.check("C09.ir_utils.same_shape.true_only_for_known_shapes_of_equal_rank", ok, CL)
+        if ok:
+            ctx.check("C09.ir_utils.same_shape.true_only_if_runtime_dims_equal_for_every_binding",
+                      z3.And(*[a == b for a, b in zip(r1, r2)]) if r1 else z3.BoolVal(True),
+                      "C09: 'distinct symbols bound to equal values or equal symbols used twice' — unknown dims are never equal")
+    # same_dim on the first dims
+    if s1 and s2:
+        d1, d2 = W.dims_of(sh1)[0], W.dims_of(sh2)[0]
+        rd = I.call(_ir_utils.same_dim, [d1, d2])
+        if I.truth(rd):
+            ctx.check("C09.ir_utils.same_dim.true_only_if_runtime_dims_equal_for_every_binding", r1[0] == r2[0], CL)
+
+
+SCENARIOS.append(Scenario("C09.ir_utils.same_shape", s_same_shape, [("onnxscript/rewriter/_ir_utils.py", "same_shape"), ("onnxscript/rewriter/_ir_utils.py", "same_dim")],
+                          kind="bounded", bound="ranks <= 2; every dim kind", max_paths=20000,
+                          trusted=["onnx_ir Shape.has_unknown_dim / Shape.__eq__ / SymbolicDim.__eq__ (interpreted from their real source)"]))
